@@ -144,3 +144,8 @@ package storage
 //@   invariant[C01] 0 - 1 <= i && i < len(m.sstables) && NoMemHas(m, bstr(key)) && m.hit == 0 - 1
 //@   invariant[C01] forall j int :: i < j && j < len(m.sstables) ==> !m.sstables[j].has[bstr(key)]
 //@   invariant[C01] forall j int :: 0 <= j && j < len(m.sstables) ==> m.sstables[j] != nil
+
+// ---- C12 / C01: tables are loaded oldest to newest (Get and the iterators read the list from its end): the comparison
+// handed to the sort puts a deeper level first and, within a level, the earlier creation timestamp (then sequence).
+//@ func (*Manager).loadSSTables$2
+//@   ensures[C12] result == (li > lj || (li == lj && (ti < tj || (ti == tj && si < sj))))
